@@ -688,6 +688,13 @@ def pred_lang(test, var, alpha):
                     if isinstance(op, ast.NotEq):
                         # x[0] != c is an IndexError on the empty string; callers guard with `not x or`
                         return res.complement()
+            if isinstance(r, ast.Constant) and isinstance(r.value, str) and isinstance(op, (ast.In, ast.NotIn)) \
+                    and isinstance(l, ast.Subscript) and norm(l.value) == var and norm(l.slice) in ('0', '-1'):
+                cls_ = '[' + ''.join(re.escape(ch) for ch in r.value) + ']' if r.value else '(?!)'
+                if not r.value:
+                    raise AnalysisError('membership in the empty string')
+                res = rl(cls_ + '.*') if norm(l.slice) == '0' else rl('.*' + cls_)
+                return res if isinstance(op, ast.In) else res.complement()
             if isinstance(l, ast.Constant) and isinstance(l.value, str) and norm(r) == var and isinstance(op, (ast.In, ast.NotIn)):
                 res = rl('.*' + re.escape(l.value) + '.*')
                 return res if isinstance(op, ast.In) else res.complement()
